@@ -210,6 +210,51 @@ def run(prog, tier, extra=None):
                 lin = canon_lin(cr, cch, e)
                 if lin:
                     derived_c[g] = (lin, bb)
+    # fields the producer recomputes from fields of the block under construction (block.total_fees = block.total_fees_new + ...)
+    producer_lin = {}
+
+    def own_lin(e, base):
+        x = strip(e)
+        if x[0] == "field" and x[1][0] == "bin" and x[3] == "0":
+            return own_lin(x[1], base)
+        if x[0] == "const" and isinstance(x[1], int):
+            return {"1": x[1]} if x[1] else {}
+        fcv = cv_field(x)
+        if fcv:
+            return {"cv." + fcv: 1}
+        if x[0] == "bin":
+            op = x[1].replace("WithOverflow", "")
+            a, b_ = own_lin(x[2], base), own_lin(x[3], base)
+            if a is None or b_ is None or op not in ("Add", "Sub"):
+                return None
+            out = dict(a)
+            for k, v in b_.items():
+                out[k] = out.get(k, 0) + (v if op == "Add" else -v)
+            return {k: v for k, v in out.items() if v != 0}
+        if x[0] == "field" and x[2].endswith("block::Block") and strip(x[1]) [0] == "local" and strip(x[1])[1] == base and x[3] in direct:
+            return {"cv." + direct[x[3]][0]: 1}
+        return None
+    for bb, blk in enumerate(cr.blocks):
+        for st in blk["s"]:
+            if st[0] != "=":
+                continue
+            fs = [pr for pr in st[1][1] if isinstance(pr, list) and pr[0] == "f"]
+            if not fs or not fs[-1][2].endswith("block::Block") or st[1][1][-1] != fs[-1] or fs[-1][3] in direct:
+                continue
+            g_ = fs[-1][3]
+            lin_ = own_lin(cch.rvalue(st[2], 0), st[1][0])
+            producer_lin[g_] = (lin_, bb) if g_ not in producer_lin else (None, bb)       # assigned twice: not decided
+    gcv = prog.body(BLK + "generate_consensus_values::{closure#0}")
+    gen_defs = {}
+    if gcv is not None:
+        gch = Chaser(gcv)
+        for bb, blk in enumerate(gcv.blocks):
+            for st in blk["s"]:
+                if st[0] != "=":
+                    continue
+                fs = [pr for pr in st[1][1] if isinstance(pr, list) and pr[0] == "f"]
+                if fs and fs[-1][2].endswith(CV) and st[1][1][-1] == fs[-1]:
+                    gen_defs.setdefault(fs[-1][3], []).append(canon_lin(gcv, gch, gch.rvalue(st[2], 0)))
     for g, (f, bb) in sorted(pairs.items()):
         res.instance(R2)
         if g in direct:
@@ -217,6 +262,15 @@ def run(prog, tier, extra=None):
                 res.add(Finding(R2, "C07.field-correspondence|%s" % g, "Block::validate compares self.%s with cv.%s but Block::create fills it from cv.%s" % (g, f, direct[g][0]), cr.loc(direct[g][1])))
             else:
                 res.sample({"field": g, "consensus_value": f, "verdict": "producer and validator agree"})
+        elif g in assigned and g in producer_lin and producer_lin[g][0] is not None and len(gen_defs.get(f, [])) == 1 and gen_defs[f][0] is not None:
+            # the producer computes the field itself from fields it has already filled from the consensus values: substitute those,
+            # and compare with the one definition of cv.<f> in generate_consensus_values
+            plin, pbb = producer_lin[g]
+            if plin == {"cv." + f: 1} or plin == gen_defs[f][0]:
+                res.sample({"field": g, "consensus_value": f, "producer": plin, "generator": gen_defs[f][0], "verdict": "producer recomputes the generator's definition"})
+            else:
+                res.add(Finding(R2, "C07.field-correspondence|%s|recomputed" % g, "Block::validate compares self.%s with cv.%s (= %s in generate_consensus_values) but Block::create "
+                                "produces it as %s: the two differ for some blocks, and the producer's own block is then refused" % (g, f, gen_defs[f][0], plin), cr.loc(pbb)))
         elif g in assigned:
             res.not_decided.append("Block.%s is validated against cv.%s and produced by a derived expression in Block::create (not decided)" % (g, f))
         else:
